@@ -22,7 +22,7 @@ _ORACLE_MEMO: dict[str, dict[str, Any]] = {}
 def main_texts(pool: dict[str, Any], rng: random.Random) -> list[str]:
 	"""__main__ submissions (no blank lines: an empty line ends a submission at the terminal)."""
 	texts = []
-	for m in pool['modules']:
+	for m in pools.core(pool):
 		t = pools.tag_of(m)
 		texts.append(f'from {m} import make_{t}\ndef main_{t}(k: int) -> int:\n\tv = make_{t}()\n\tw = v.value\n\tu = w\n\txs = [u]\n\treturn k if k > 0 else len(xs)')
 	texts.append('from __main__ import A\nclass A:\n\tn: int\n\tdef __init__(self) -> None:\n\t\tself.n = 0\ndef use_a(k: int) -> int:\n\ta = A()\n\treturn a.n + k')
